@@ -519,5 +519,204 @@ Section Term.
       apply nf_bind; [apply greedy_match_nf; auto; lia|].
       intros tm _. apply skip_back_nf.
     Qed.
+
+    (* -------------------------------------------------------------- Sequence *)
+    (** the static part of what a [Sequence] needs in context [terms] *)
+    Definition SeqS (d : seq_d) (terms : list N) : Prop :=
+      (forall e, In e (sq_elems d) -> elem_called g e = true -> Callable e terms)
+      /\ (sq_mode d = Strict \/ TrimS (sq_terms d ++ terms) terms).
+    Definition seq_trim_ms (d : seq_d) (terms : list N) : list N :=
+      if pmode_eqb (sq_mode d) Strict then [] else (sq_terms d ++ terms) ++ brk g.
+
+    Lemma seq_body_nf d len si terms st e :
+      SInv si len st -> len - si <= R0 ->
+      Callable e terms -> (si < s_matched st \/ ok e (len - si)) ->
+      (sq_mode d = Strict \/ TrimS (sq_terms d ++ terms) terms) -> Okl (seq_trim_ms d terms) (len - si) ->
+      NF (seq_body g toks rec fl d len si terms st e).
+    Proof.
+      intros (I1 & I2 & I3) Hr Hcall Hok Htr Hot. unfold seq_body.
+      apply nf_bind; [destruct (sq_gaps d); [apply skip_fwd_nf|apply nf_ok]|]. intros idx' Hidx'.
+      assert (Hidx : s_matched st <= idx' /\ idx' <= s_max st)
+        by (destruct (sq_gaps d); [apply skip_fwd_spec in Hidx'; lia|inversion Hidx'; subst; lia]).
+      destruct (s_max st <=? idx') eqn:Emax; b2p.
+      - apply nf_bind; [apply opt_of_nf|]. intros o _. destruct o; [apply nf_ok|].
+        destruct (pmode_eqb (sq_mode d) Strict || (s_matched st =? si)); apply nf_ok.
+      - apply nf_bind; [destruct (len <? s_max st); [apply nf_panic|apply nf_ok]|]. intros _u _.
+        apply nf_bind.
+        { apply rec_nf; [exact Hcall|lia|].
+          destruct Hok as [Hok|Hok]; [left; lia|eapply ok_mono; [|exact Hok]; lia]. }
+        intros em Hem.
+        assert (Hemb : B idx' (s_max st) em) by (eapply HrecB; [|exact Hem]; lia).
+        destruct Hemb as (E1 & E2 & E3).
+        destruct (negb (has_match em)).
+        + apply nf_bind; [apply opt_of_nf|]. intros o _. destruct o; [apply nf_ok|].
+          destruct (pmode_eqb (sq_mode d) Strict); [apply nf_ok|].
+          destruct (pmode_eqb (sq_mode d) GreedyOnceStarted && (s_matched st =? si)); [apply nf_ok|].
+          destruct (s_matched st =? si); [apply nf_ok|].
+          apply nf_bind; [apply skip_fwd_nf|intros; apply nf_ok].
+        + apply nf_bind.
+          * destruct (s_first st && pmode_eqb (sq_mode d) GreedyOnceStarted) eqn:Eg; [|apply nf_ok].
+            destruct Htr as [Htr|Htr];
+              [rewrite Htr in Eg; cbn in Eg; rewrite andb_false_r in Eg; discriminate|].
+            apply trim_to_terminator_nf; [lia|lia|exact Htr|].
+            unfold seq_trim_ms in Hot. destruct (pmode_eqb (sq_mode d) Strict) eqn:Es.
+            { apply andb_true_iff in Eg as [_ Eg]. destruct (sq_mode d); try discriminate Es; discriminate Eg. }
+            eapply okl_mono; [|exact Hot]. lia.
+          * intros newmax _. destruct (is_some (mr_matched em)); apply nf_ok.
+    Qed.
+
+    Lemma seq_elem_nf d len si terms st e :
+      SInv si len st -> len - si <= R0 ->
+      (elem_called g e = true -> Callable e terms /\ (si < s_matched st \/ ok e (len - si))) ->
+      (sq_mode d = Strict \/ TrimS (sq_terms d ++ terms) terms) -> Okl (seq_trim_ms d terms) (len - si) ->
+      NF (seq_elem g toks rec fl d len si terms st e).
+    Proof.
+      intros Hinv Hr He Htr Hot. apply seq_elem_cases.
+      - intro p. apply nf_panic.
+      - intros. apply nf_ok.
+      - intro Hc. destruct (He Hc) as [H1 H2]. apply seq_body_nf; assumption.
+    Qed.
+
+    Lemma seq_prefix_head e es : elem_called g e = true -> In e (seq_prefix g tc (e :: es)).
+    Proof. intro H. cbn [seq_prefix]. rewrite H. left. reflexivity. Qed.
+    Lemma seq_prefix_tail e es c :
+      good g tc e = false -> In c (seq_prefix g tc es) -> In c (seq_prefix g tc (e :: es)).
+    Proof.
+      unfold good. intros Hg Hc. cbn [seq_prefix]. destruct (elem_called g e); [|exact Hc].
+      cbn [andb] in Hg. rewrite Hg. right. exact Hc.
+    Qed.
+
+    Lemma seq_loop_nf d len si terms es : forall st,
+      SInv si len st -> len - si <= R0 ->
+      (forall e, In e es -> elem_called g e = true -> Callable e terms) ->
+      (si < s_matched st \/ Okl (seq_prefix g tc es) (len - si)) ->
+      (sq_mode d = Strict \/ TrimS (sq_terms d ++ terms) terms) -> Okl (seq_trim_ms d terms) (len - si) ->
+      NF (seq_loop g toks rec fl d len si terms st es).
+    Proof.
+      induction es as [|e es IH]; intros st Hinv Hr Hc Hj Htr Hot; cbn [seq_loop]; [apply nf_ok|].
+      apply nf_bind.
+      { apply seq_elem_nf; auto. intro Hcl. split; [apply Hc; [left; reflexivity|exact Hcl]|].
+        destruct Hj as [Hj|Hj]; [left; exact Hj|right]. apply Hj. apply seq_prefix_head. exact Hcl. }
+      intros r Hr'.
+      pose proof (seq_elem_spec g toks rec HrecB _ _ _ _ _ _ _ _ Hinv Hr') as Hs.
+      pose proof (seq_elem_adv g toks tc rec HrecB HrecP _ _ _ _ _ _ _ _ Hinv Hr') as Hadv.
+      destruct r as [st'|m]; [|apply nf_ok]. destruct Hadv as [Hmono Hg].
+      apply IH; auto.
+      - intros e' He'. apply Hc. right. exact He'.
+      - destruct Hj as [Hj|Hj]; [left; lia|].
+        destruct (good g tc e) eqn:Eg; [left; apply Hg; reflexivity|].
+        right. intros c Hcin. apply Hj. apply seq_prefix_tail; assumption.
+    Qed.
+
+    (** on an empty or inverted slice a [Sequence] calls nothing *)
+    Lemma seq_loop_deg d len si terms es : forall st,
+      s_max st <= s_matched st -> NF (seq_loop g toks rec fl d len si terms st es).
+    Proof.
+      induction es as [|e es IH]; intros st Hd; cbn [seq_loop]; [apply nf_ok|].
+      assert (Hstep : forall r, seq_elem g toks rec fl d len si terms st e = r ->
+                NF r /\ forall st', r = ROk (Cont st') -> s_max st' <= s_matched st').
+      { apply seq_elem_cases.
+        - intros p r <-. split; [apply nf_panic|discriminate].
+        - intros st' H1 H2 _ r <-. split; [apply nf_ok|]. intros st'' E. inversion E; subst. lia.
+        - intros _ r <-. unfold seq_body.
+          destruct (if sq_gaps d then skip_fwd toks len (s_matched st) (s_max st) else ROk (s_matched st))
+            as [idx'| |p|] eqn:Ei; cbn [bind]; try (split; [discriminate|discriminate]).
+          + assert (Hidx : s_matched st <= idx')
+              by (destruct (sq_gaps d); [apply skip_fwd_spec in Ei; lia|inversion Ei; subst; lia]).
+            assert (Emax : (s_max st <=? idx') = true) by (apply N.leb_le; lia). rewrite Emax.
+            destruct (opt_of g e) as [o| |p|] eqn:Eo; cbn [bind]; try (split; [discriminate|discriminate]).
+            * destruct o; [split; [apply nf_ok|intros st' E; inversion E; subst; exact Hd]|].
+              destruct (pmode_eqb (sq_mode d) Strict || (s_matched st =? si));
+                (split; [apply nf_ok|discriminate]).
+            * exfalso. exact (opt_of_nf g e Eo).
+          + exfalso. destruct (sq_gaps d); [exact (skip_fwd_nf toks _ _ _ Ei)|discriminate]. }
+      destruct (Hstep _ eq_refl) as [Hnf Hcont].
+      apply nf_bind; [exact Hnf|]. intros r Hr. destruct r as [st'|m]; [|apply nf_ok].
+      apply IH. apply Hcont. exact Hr.
+    Qed.
+
+    Lemma match_sequence_tail d len idx (r : res step_r) :
+      NF r ->
+      NF (r0 <- r ;;
+          match r0 with
+          | Ret m => ROk m
+          | Cont st =>
+              let matched_idx := s_matched st in
+              let max_idx := s_max st in
+              let ins := s_ins st ++ map (fun k => (matched_idx, k)) (s_buf st) in
+              if negb (pmode_eqb (sq_mode d) Strict) && (matched_idx <? max_idx) then
+                i <- skip_fwd toks len matched_idx max_idx ;;
+                stop <- skip_back toks len max_idx i ;;
+                if i <? stop then ROk (MR idx stop None ins (s_ch st ++ [unparsable g i stop]))
+                else ROk (MR idx matched_idx None ins (s_ch st))
+              else ROk (MR idx matched_idx None ins (s_ch st))
+          end).
+    Proof.
+      intro Hr. apply nf_bind; [exact Hr|]. intros r0 _. destruct r0 as [st|m]; [|apply nf_ok].
+      cbn zeta. destruct (negb (pmode_eqb (sq_mode d) Strict) && (s_matched st <? s_max st)); [|apply nf_ok].
+      apply nf_bind; [apply skip_fwd_nf|]. intros i _.
+      apply nf_bind; [apply skip_back_nf|]. intros stop _. destruct (i <? stop); apply nf_ok.
+    Qed.
+
+    Lemma match_sequence_nf d len idx terms :
+      len - idx <= R0 -> SeqS d terms ->
+      Okl (seq_trim_ms d terms ++ seq_prefix g tc (sq_elems d)) (len - idx) ->
+      NF (match_sequence g toks rec fl d len idx terms).
+    Proof.
+      intros Hr (He & Htr) Ho. destruct (okl_app _ _ _ Ho) as [Hot Hop].
+      unfold match_sequence.
+      apply nf_bind.
+      { destruct (pmode_eqb (sq_mode d) Greedy) eqn:Eg; [|apply nf_ok].
+        destruct Htr as [Htr|Htr]; [rewrite Htr in Eg; discriminate|].
+        apply trim_to_terminator_nf; [lia|lia|exact Htr|].
+        unfold seq_trim_ms in Hot. destruct (pmode_eqb (sq_mode d) Strict) eqn:Es; [|exact Hot].
+        destruct (sq_mode d); try discriminate Es; discriminate Eg. }
+      intros max0 Hmax0. apply match_sequence_tail.
+      destruct (N.le_gt_cases idx len) as [Hi|Hi].
+      - assert (Hmax : idx <= max0 /\ max0 <= len).
+        { destruct (pmode_eqb (sq_mode d) Greedy);
+            [apply (trim_to_terminator_spec g toks rec HrecB) in Hmax0; lia|inversion Hmax0; subst; lia]. }
+        assert (Hinv : SInv idx len (mkS idx max0 [] [] true [])) by (unfold SInv; cbn; lia).
+        apply seq_loop_nf; auto.
+      - apply seq_loop_deg. cbn [s_max s_matched].
+        destruct (pmode_eqb (sq_mode d) Greedy); [|inversion Hmax0; subst; lia].
+        unfold trim_to_terminator in Hmax0. assert (E : (len <=? idx) = true) by (apply N.leb_le; lia).
+        rewrite E in Hmax0. inversion Hmax0; subst. lia.
+    Qed.
+
+    (* -------------------------------------------------------------- Bracketed *)
+    Lemma match_bracketed_nf self found bs be pers gaps d len idx terms :
+      idx <= len -> len - idx <= R0 ->
+      (forall sb eb, bs = Some sb -> be = Some eb ->
+         Callable sb terms /\ Callable eb terms /\ ok sb (len - idx) /\ tc_in tc sb = true
+         /\ SeqS d (deeper g true [eb] terms)) ->
+      NF (match_bracketed g toks rec fl self found bs be pers gaps d len idx terms).
+    Proof.
+      intros Hi Hr Hbe. unfold match_bracketed.
+      destruct (negb found); [apply nf_panic|].
+      destruct bs as [sb|]; [|apply nf_panic]. destruct be as [eb|]; [|apply nf_panic].
+      destruct (Hbe sb eb eq_refl eq_refl) as (Hcs & Hce & Hok & Htcs & Hseq).
+      apply nf_bind; [apply rec_nf; assumption|]. intros sm Hsm.
+      pose proof (HrecB _ _ _ _ _ Hi Hsm) as (S1 & S2 & S3).
+      pose proof (HrecP _ _ _ _ _ Hi Htcs Hsm) as Hadv.
+      destruct (negb (has_match sm)) eqn:Ehm; [apply nf_ok|]. apply negb_false_iff in Ehm. specialize (Hadv Ehm).
+      apply nf_bind.
+      { apply resolve_bracket_nf; auto; try lia.
+        - intros c [<-|[<-|[]]]; assumption.
+        - apply okl_lt. lia.
+        - intros c [<-|[]]. exact Htcs. }
+      intros bm Hbm.
+      pose proof (resolve_bracket_spec g toks rec HrecB _ _ _ _ _ _ _ _ _ _ S2 S3 Hbm) as (B1 & B2 & B3).
+      apply nf_bind; [destruct (mr_end bm =? 0); [apply nf_panic|apply nf_ok]|]. intros _u _.
+      apply nf_bind; [destruct gaps; [apply skip_fwd_nf|apply nf_ok]|]. intros i1 Hi1.
+      assert (Hi1' : mr_end sm <= i1)
+        by (destruct gaps; [apply skip_fwd_spec in Hi1; lia|inversion Hi1; subst; lia]).
+      apply nf_bind; [destruct gaps; [apply skip_back_nf|apply nf_ok]|]. intros e1 He1.
+      destruct (len <? e1) eqn:El; [apply nf_panic|]. b2p. cbn [bind].
+      apply nf_bind.
+      { apply match_sequence_nf; [lia|exact Hseq|]. apply okl_lt. lia. }
+      intros cm _. destruct (negb (mr_end cm =? e1) && pmode_eqb (sq_mode d) Strict); [apply nf_ok|].
+      destruct (negb gaps && (mr_end cm =? mr_end bm - 1)); [apply nf_panic|apply nf_ok].
+    Qed.
   End WithRec.
 End Term.
